@@ -379,6 +379,32 @@ def impl_arr(case, arr, world):
             except Exception as e:  # add_source failed (parsing error, top-level file missing)
                 c = classify_c06(e)
                 res = {'stages': c, 'tree': dict(c), 'cfg': dict(c, log=[])}
+        if arr == 'sources' and len(p['sources']) >= 2 and 'ok' in res.get('cfg', {}):
+            # the same sources given to ONE builder in two instalments, with a build in between (a builder used incrementally: add,
+            # build, add more, build again) - the second build must be the one-shot build (seeded change S9-C15: stages added after a
+            # build were never preprocessed)
+            with WorldImpl(world) as w3:
+                try:
+                    b2 = Builder()
+                    cut = 1 + (len(json.dumps(case['docs'])) % (len(p['sources']) - 1))
+                    for s_ in p['sources'][:cut]:
+                        b2.add_source(s_['file'], raw_yaml=False, safe=s_.get('safe')) if 'file' in s_ else \
+                            b2.add_source(render_file(s_['raw'], style), raw_yaml=True, filename=s_.get('filename'), safe=s_.get('safe'))
+                    b2.build()
+                    for j_, s_ in enumerate(p['sources'][cut:], cut):
+                        if 'file' in s_ and j_ % 2 == 1 and j_ < len(case['groups']) and case['groups'][j_] and not any(c in case['names'][j_] for c in ' \'"#:{}[],&*!|>%@`'):
+                            # every other later instalment is a top-level include of the file instead of the file itself
+                            b2.add_source('!include ' + case['names'][j_] + '\n', raw_yaml=True, filename=p['main_arg'], safe=s_.get('safe'))
+                        elif 'file' in s_:
+                            b2.add_source(s_['file'], raw_yaml=False, safe=s_.get('safe'))
+                        else:
+                            b2.add_source(render_file(s_['raw'], style), raw_yaml=True, filename=s_.get('filename'), safe=s_.get('safe'))
+                    cfg3 = Config(b2.build(), eval_ctx=EvalContext(eval_symbols=w3.syms))
+                    res['incremental'] = {'ok': renumber(conv_val(cfg3, w3, {})), 'cut': cut}
+                except RecursionError:
+                    res['incremental'] = {'err': 'recursion'}
+                except Exception as e:  # noqa
+                    res['incremental'] = dict(classify_c06(e), cut=cut)
         if arr == 'nested_after' and p.get('missing') is None and all(f is not None for f in p['found']):
             # "`key: !include [..]` equals placing the merged content of those files under key": build the files alone,
             # wrap the resulting tree under key with the node API and merge it as a stage after the first document
@@ -824,6 +850,14 @@ class C06(Prop):
                     if d:
                         return f'arrangements {ref_a} and {a} of the same documents build different trees: ' + d
         # (4b) the same when the key already holds content: expectation computed through the API (see impl_arr)
+        if 'sources' in arrs and 'incremental' in io['sources'] and 'ok' in io['sources']['cfg']:
+            inc = io['sources']['incremental']
+            if 'ok' not in inc:
+                return (f'[sources] the same sources added to one builder in two instalments (build after the first {inc.get("cut")}) fail with '
+                        f'{inc.get("err")}, the one-shot build succeeds')
+            d = first_diff(strip_ids(io['sources']['cfg']['ok']), strip_ids(inc['ok']))
+            if d:
+                return f'[sources] the same sources added to one builder in two instalments (build after the first {inc.get("cut")}) give another config: ' + d
         if 'nested_after' in arrs and 'expected' in io['nested_after']:
             exp, got = io['nested_after']['expected'], io['nested_after']['cfg']
             if 'ok' in exp:
